@@ -76,6 +76,21 @@ theorem counterVec_newOnly (r : Reporter) (name : Bytes) (keys : List Bytes) : N
       · exact Or.inl h
       · exact Or.inr (by rw [h])
 
+theorem counterVecD_newOnly (r : Reporter) (name : Bytes) (keys : List Bytes) (desc : Bytes) :
+    NewOnly r (counterVecD r name keys desc).1 name := by
+  cases hl : lookupKey r.counters (name, keys) with
+  | some f0 => simp only [counterVecD, hl]; exact NewOnly.refl r name
+  | none =>
+    cases hr : register r.reg (mkFamilyD name keys .counter [] desc) with
+    | err e => simp only [counterVecD, hl, hr]; exact NewOnly.refl r name
+    | ok reg' =>
+      simp only [counterVecD, hl, hr]
+      refine ⟨register_reg_newOnly _ _ _ hr, ?_, fun _ _ h => Or.inl h, fun _ _ h => Or.inl h⟩
+      intro key a h
+      rcases lookup_cons_newOnly _ _ _ _ _ h with h | h
+      · exact Or.inl h
+      · exact Or.inr (by rw [h])
+
 theorem gaugeVec_newOnly (r : Reporter) (name : Bytes) (keys : List Bytes) : NewOnly r (gaugeVec r name keys).1 name := by
   cases hl : lookupKey r.gauges (name, keys) with
   | some f0 => simp only [gaugeVec, hl]; exact NewOnly.refl r name
@@ -84,6 +99,21 @@ theorem gaugeVec_newOnly (r : Reporter) (name : Bytes) (keys : List Bytes) : New
     | err e => simp only [gaugeVec, hl, hr]; exact NewOnly.refl r name
     | ok reg' =>
       simp only [gaugeVec, hl, hr]
+      refine ⟨register_reg_newOnly _ _ _ hr, fun _ _ h => Or.inl h, ?_, fun _ _ h => Or.inl h⟩
+      intro key a h
+      rcases lookup_cons_newOnly _ _ _ _ _ h with h | h
+      · exact Or.inl h
+      · exact Or.inr (by rw [h])
+
+theorem gaugeVecD_newOnly (r : Reporter) (name : Bytes) (keys : List Bytes) (desc : Bytes) :
+    NewOnly r (gaugeVecD r name keys desc).1 name := by
+  cases hl : lookupKey r.gauges (name, keys) with
+  | some f0 => simp only [gaugeVecD, hl]; exact NewOnly.refl r name
+  | none =>
+    cases hr : register r.reg (mkFamilyD name keys .gauge [] desc) with
+    | err e => simp only [gaugeVecD, hl, hr]; exact NewOnly.refl r name
+    | ok reg' =>
+      simp only [gaugeVecD, hl, hr]
       refine ⟨register_reg_newOnly _ _ _ hr, fun _ _ h => Or.inl h, ?_, fun _ _ h => Or.inl h⟩
       intro key a h
       rcases lookup_cons_newOnly _ _ _ _ _ h with h | h
@@ -137,6 +167,8 @@ theorem vecFor_newOnly (cfg : Cfg) (r : Reporter) (kind : UseKind) (name : Bytes
   | histogram spec => exact histogramVec_newOnly _ r name keys _
   | counterAs => exact counterVec_newOnly r name keys
   | gaugeAs => exact gaugeVec_newOnly r name keys
+  | counterAsD desc => exact counterVecD_newOnly r name keys desc
+  | gaugeAsD desc => exact gaugeVecD_newOnly r name keys desc
 
 theorem finishAlloc_static (cfg : Cfg) (p : Reporter × VecResult) (tags : Tags) :
     (finishAlloc cfg p tags).1.reg = p.1.reg ∧ (finishAlloc cfg p tags).1.counters = p.1.counters
@@ -261,6 +293,9 @@ theorem fresh_vec (cfg : Cfg) (r : Reporter) (kind : UseKind) (name : Bytes) (ke
   have hr : ∀ k bs, register r.reg (mkFamily name keys k bs) = .ok (r.reg ++ [mkFamily name keys k bs]) := by
     intro k bs
     simp [register, mkFamily, hreg]
+  have hrD : ∀ k bs d, register r.reg (mkFamilyD name keys k bs d) = .ok (r.reg ++ [mkFamilyD name keys k bs d]) := by
+    intro k bs d
+    simp [register, mkFamilyD, hreg]
   cases kind with
   | counter => exact ⟨mkFamily name keys .counter [], by simp [vecFor, counterVec, hc, hr]⟩
   | gauge => exact ⟨mkFamily name keys .gauge [], by simp [vecFor, gaugeVec, hg, hr]⟩
@@ -275,6 +310,8 @@ theorem fresh_vec (cfg : Cfg) (r : Reporter) (kind : UseKind) (name : Bytes) (ke
   | histogram spec => exact ⟨mkFamily name keys .histogram spec.promBounds, by simp [vecFor, histogramVec, ht, hr]⟩
   | counterAs => exact ⟨mkFamily name keys .counter [], by simp [vecFor, counterVec, hc, hr]⟩
   | gaugeAs => exact ⟨mkFamily name keys .gauge [], by simp [vecFor, gaugeVec, hg, hr]⟩
+  | counterAsD desc => exact ⟨mkFamilyD name keys .counter [] desc, by simp [vecFor, counterVecD, hc, hrD]⟩
+  | gaugeAsD desc => exact ⟨mkFamilyD name keys .gauge [] desc, by simp [vecFor, gaugeVecD, hg, hrD]⟩
 
 theorem fresh_usable (cfg : Cfg) (pre : List Ev) (kind : UseKind) (name : Bytes) (tags : Tags)
     (hn : ∀ u ∈ usesOf pre, u.2.1 ≠ name) : ∃ k, (useMetric cfg (run cfg pre).rep kind name tags).2 = .usable k := by
@@ -292,5 +329,91 @@ theorem fresh_usable (cfg : Cfg) (pre : List Ev) (kind : UseKind) (name : Bytes)
   split
   · exact ⟨_, rfl⟩
   · exact ⟨_, rfl⟩
+
+/-! ### `RegisterCounter` / `RegisterGauge` with the caller's help text -/
+
+theorem mkFamilyD_default (name : Bytes) (keys : List Bytes) (kind : Kind) (bounds : List F64) :
+    mkFamilyD name keys kind bounds (name ++ helpSuffix kind) = mkFamily name keys kind bounds := rfl
+
+/-- `counterVec` is `counterVecD` with tally's default help text -/
+theorem counterVecD_default (r : Reporter) (name : Bytes) (keys : List Bytes) :
+    counterVecD r name keys (name ++ helpSuffix .counter) = counterVec r name keys := rfl
+
+theorem gaugeVecD_default (r : Reporter) (name : Bytes) (keys : List Bytes) :
+    gaugeVecD r name keys (name ++ helpSuffix .gauge) = gaugeVec r name keys := rfl
+
+/-- registering a second collector under the name of the family registered last: `already` exactly
+when help and label names agree -/
+theorem register_after (reg : List Family) (f g : Family) (hn : findFamily reg f.name = none) (hg : g.name = f.name) :
+    register (reg ++ [f]) g = if f.help = g.help ∧ f.labels = g.labels then .err .already else .err .inconsistent := by
+  unfold register
+  rw [hg, findFamily_append, hn]
+  simp
+
+/-- a `counterVecD` that missed the cache and returned a vector registered the caller's family -/
+theorem counterVecD_registered (r : Reporter) (name : Bytes) (keys : List Bytes) (desc : Bytes) (f : Family)
+    (hc : lookupKey r.counters (name, keys) = none) (h : (counterVecD r name keys desc).2 = .vec (some f)) :
+    findFamily r.reg name = none ∧ f = mkFamilyD name keys .counter [] desc
+      ∧ (counterVecD r name keys desc).1.reg = r.reg ++ [f]
+      ∧ (counterVecD r name keys desc).1.gauges = r.gauges := by
+  cases hr : register r.reg (mkFamilyD name keys .counter [] desc) with
+  | err e => simp [counterVecD, hc, hr] at h
+  | ok reg' =>
+    obtain ⟨h1, h2⟩ := register_ok _ _ _ hr
+    simp only [counterVecD, hc, hr, VecResult.vec.injEq, Option.some.injEq] at h ⊢
+    subst h
+    exact ⟨h1, rfl, h2, trivial⟩
+
+theorem gaugeVecD_registered (r : Reporter) (name : Bytes) (keys : List Bytes) (desc : Bytes) (f : Family)
+    (hg : lookupKey r.gauges (name, keys) = none) (h : (gaugeVecD r name keys desc).2 = .vec (some f)) :
+    findFamily r.reg name = none ∧ f = mkFamilyD name keys .gauge [] desc
+      ∧ (gaugeVecD r name keys desc).1.reg = r.reg ++ [f]
+      ∧ (gaugeVecD r name keys desc).1.counters = r.counters := by
+  cases hr : register r.reg (mkFamilyD name keys .gauge [] desc) with
+  | err e => simp [gaugeVecD, hg, hr] at h
+  | ok reg' =>
+    obtain ⟨h1, h2⟩ := register_ok _ _ _ hr
+    simp only [gaugeVecD, hg, hr, VecResult.vec.injEq, Option.some.injEq] at h ⊢
+    subst h
+    exact ⟨h1, rfl, h2, trivial⟩
+
+/-- `gaugeVecD` for the name and label names of the family registered last, with no gauge vector
+cached: the client's answer comes back as the error, nothing changes -/
+theorem gaugeVecD_conflict (r1 : Reporter) (reg : List Family) (f : Family) (name : Bytes) (keys : List Bytes) (desc : Bytes)
+    (hreg : r1.reg = reg ++ [f]) (hn : findFamily reg name = none) (hfn : f.name = name) (hfl : f.labels = keys)
+    (hg : lookupKey r1.gauges (name, keys) = none) :
+    gaugeVecD r1 name keys desc = (r1, .err (if f.help = desc then .already else .inconsistent)) := by
+  have hr := register_after reg f (mkFamilyD name keys .gauge [] desc) (by rw [hfn]; exact hn) (by rw [hfn]; rfl)
+  simp only [gaugeVecD, hg, hreg, hr]
+  by_cases hd : f.help = desc <;> simp [mkFamilyD, hd, hfl]
+
+theorem counterVecD_conflict (r1 : Reporter) (reg : List Family) (f : Family) (name : Bytes) (keys : List Bytes) (desc : Bytes)
+    (hreg : r1.reg = reg ++ [f]) (hn : findFamily reg name = none) (hfn : f.name = name) (hfl : f.labels = keys)
+    (hc : lookupKey r1.counters (name, keys) = none) :
+    counterVecD r1 name keys desc = (r1, .err (if f.help = desc then .already else .inconsistent)) := by
+  have hr := register_after reg f (mkFamilyD name keys .counter [] desc) (by rw [hfn]; exact hn) (by rw [hfn]; rfl)
+  simp only [counterVecD, hc, hreg, hr]
+  by_cases hd : f.help = desc <;> simp [mkFamilyD, hd, hfl]
+
+/-- a name no earlier first use mentions is in neither cache nor in the registry -/
+theorem fresh_misses (cfg : Cfg) (pre : List Ev) (name : Bytes) (keys : List Bytes)
+    (hn : ∀ u ∈ usesOf pre, u.2.1 ≠ name) :
+    findFamily (run cfg pre).rep.reg name = none ∧ lookupKey (run cfg pre).rep.counters (name, keys) = none
+      ∧ lookupKey (run cfg pre).rep.gauges (name, keys) = none := by
+  have h := namesIn_run cfg pre
+  have hnot : name ∉ (usesOf pre).map (·.2.1) := by
+    intro hm
+    obtain ⟨u, hu, he⟩ := List.mem_map.mp hm
+    exact hn u hu he
+  refine ⟨?_, ?_, ?_⟩
+  · cases hf : findFamily (run cfg pre).rep.reg name with
+    | none => rfl
+    | some f => exact absurd (h.reg _ _ hf) hnot
+  · cases hf : lookupKey (run cfg pre).rep.counters (name, keys) with
+    | none => rfl
+    | some f => exact absurd (h.counters _ _ hf) hnot
+  · cases hf : lookupKey (run cfg pre).rep.gauges (name, keys) with
+    | none => rfl
+    | some f => exact absurd (h.gauges _ _ hf) hnot
 
 end Tally.Prom
